@@ -3,6 +3,7 @@ import Driver.C35
 import Driver.C01
 import Driver.C06
 import Driver.C07
+import Driver.C29
 open Mitum Mitum.Driver
 
 def step (line : String) : String :=
@@ -11,6 +12,7 @@ def step (line : String) : String :=
   | "C02" :: ts => stepC02 ts
   | "C06" :: ts => stepC06 ts
   | "C07" :: ts => stepC07 ts
+  | "C29" :: ts => stepC29 ts
   | "C35" :: ts => stepC35 ts
   | _ => "bad-op"
 
